@@ -65,7 +65,7 @@ func TestC04_Session(t *testing.T) { c04Rule(); propC04Sess.Run(t) }
 
 func sessPAT(c CaseC07, a *hx.Arena) (hx.SessionRun, *hx.Failure) {
 	m := c.PAT
-	payload := append([]byte{0}, m.Section()...)
+	payload := c07Payload(c, m.Section())
 	var pat psi.PAT
 	var err error
 	what := "session, carrier " + c.Carrier
